@@ -614,6 +614,32 @@ def rule_is_type_wiring(ctx, rid="R1.7b"):
     return r
 
 
+def rule_schema_not_a_condition(ctx, rid="R1.9"):
+    """A subschema is data, never a condition: `false` (rejects everything) and `{}` (accepts everything) are both falsy."""
+    from ..interp import Interp, obj
+    from ..kinds import ANY
+    from .c03 import run_entry
+    prog = ctx.prog
+    r = ctx.rule(rid, "no keyword function decides by the truthiness of a subschema (the boolean schema false is falsy, yet must be applied)", floor=60)
+    seen = {}
+    for d in ("draft6", "draft7"):
+        I = Interp(prog, d)
+        for k, f in sorted(prog.tables.drafts[d].table.items()):
+            I.schema_truthiness = []
+            run_entry(I, f, [obj("Validator"), I.shapes.keyword(k), ANY, I.schema_av.only(["dict"])])
+            if not I.schema_truthiness:
+                r.ok("%s [%s.%s]" % (site(f), d, k), "no subschema is used as a condition")
+            for (fn, node, desc) in I.schema_truthiness:
+                key = "%s|schema-truthiness|%s" % (fn.qual, norm(node)[:40])
+                if key in seen:
+                    continue
+                seen[key] = True
+                r.fail(key, site(fn, node),
+                       "`%s` (%s) is tested for truthiness: with the boolean schema `false` the test fails and the subschema is treated as absent, "
+                       "so an instance it must reject is accepted (%s %r)" % (norm(node)[:50], desc, d, k))
+    return r
+
+
 def run(ctx):
     ctx.explanation = (
         "C01, necessary structural conditions of agreement with the specification: R1.1 keyword tables = draft vocabularies; "
@@ -634,6 +660,7 @@ def run(ctx):
     rule_additional_complement(ctx)
     rule_type_predicates(ctx)
     rule_is_type_wiring(ctx)
+    rule_schema_not_a_condition(ctx)
     # R1.10: a keyword's verdict may depend on exactly the sibling names the draft gives it (necessary for spec agreement)
     from .c10 import rule_read_set
     rule_read_set(ctx, "R1.10")
